@@ -178,7 +178,9 @@ pub fn replay(cases: &[Value], out: &mut Out) {
 						continue;
 					}
 					let (hosts, target) = request_parts(r, &mut rng);
-					let mut rb = http::Request::builder().method("POST").uri(target.as_str());
+					// (the verdict is about the authority: it must be the same whatever the method - a preflight, a handshake ...)
+					let method = ["POST", "POST", "GET", "OPTIONS", "PUT", "HEAD"][rng.random_range(0..6)];
+					let mut rb = http::Request::builder().method(method).uri(target.as_str());
 					let mut ok = true;
 					for hv in &hosts {
 						match http::HeaderValue::from_bytes(hv) {
